@@ -57,6 +57,8 @@ class Gen:
                 main[pos:pos] = [["lit", r.choice(SMALL)], ["call", name]]
         if self.enabled["pause"] and r.random() < 0.5:
             main.insert(r.randint(0, len(main)), ["pause"])
+        if len(self.inputs) > 1 and r.random() < 0.5:
+            self.inputs = self.inputs[::-1]      # declared in another order than the names sort
         prog = {"vars": self.vars + ["c%d" % i for i in range(self.counters)], "inputs": self.inputs,
                 "outputs": self.outputs, "defs": self.defs, "main": main}
         return prog
